@@ -314,6 +314,20 @@ Proof.
   destruct (is_ping a); reflexivity.
 Qed.
 
+(* ---- the connection underneath: closed whatever the closing tag's write does ---- *)
+Lemma conn_trace_app cr t1 t2 : conn_trace cr (t1 ++ t2) = conn_trace cr t1 ++ conn_trace cr t2.
+Proof. unfold conn_trace. apply flat_map_app. Qed.
+
+Lemma conn_trace_oks cr n : conn_trace cr (repeat APingOk n) = repeat (CWrite ping_data) n.
+Proof. induction n as [|n IHn]; [reflexivity|]. cbn [repeat]. rewrite <- IHn. reflexivity. Qed.
+
+Lemma conn_closes_eq_closes cr tr : count is_connclose (conn_trace cr tr) = count is_close tr.
+Proof.
+  induction tr as [|a tr IHt]; [reflexivity|].
+  change (a :: tr) with ([a] ++ tr). rewrite conn_trace_app, !count_app, IHt.
+  destruct a; reflexivity.
+Qed.
+
 (* ---- environment level ---- *)
 Lemma resolve_ticks_le evs : forall pending closed,
   count is_tick (resolve pending closed evs) <= (if pending then 1 else 0) + count_fire evs.
